@@ -391,6 +391,13 @@ bool Executor::native(State &s, CallBase *cb, Function *f, std::vector<Val> &a, 
     if (n == "pthread_mutex_lock" || n == "pthread_mutex_unlock" || n == "pthread_mutex_init" || n == "pthread_mutex_destroy" ||
         n == "__pthread_key_create" || n == "pthread_once") { retInt(0); return true; }
     if (n == "_ZNSt8ios_base4InitC1Ev" || n == "_ZNSt8ios_base4InitD1Ev") return true;
+    if (n == "_ZSt9use_facetISt5ctypeIcEERKT_RKSt6locale") {
+        // the classic ctype facet: an object of rt/rt_libstdcxx.cpp with a hand-made vtable
+        nativeUse[n.str()]++;
+        GlobalVariable *g = M->getGlobalVariable("vrt_fake_ctype", true);
+        if (!g || !gaddr.count(g)) throw EngineError("use_facet<ctype<char>>: rt object vrt_fake_ctype not in the module");
+        ret = mkPtr(gaddr[g]); return true;
+    }
     // ---------- iostream family: formatting is never a property subject; streams are inert, str() is empty ----------
     {
         std::string d = n.str();
